@@ -874,6 +874,35 @@ def _const(r, rc):
         return None
 
 
+_CMPOPS = ('==', '!=', '<', '<=', '>', '>=')
+
+
+def is_truth_value(x, depth=0):
+    """x is an expression whose value is 0 or 1 by construction: a comparison, `!`, `&&`, `||`, or `&` / `|` of two such"""
+    x = strip(x) if isinstance(x, dict) else x
+    if not isinstance(x, dict) or depth > 6:
+        return False
+    if x.get('k') == 'un' and x.get('op') == '!':
+        return True
+    if x.get('k') == 'bin':
+        if x.get('op') in _CMPOPS or x.get('op') in ('&&', '||'):
+            return True
+        if x.get('op') in ('&', '|'):
+            return is_truth_value(x['l'], depth + 1) and is_truth_value(x['r'], depth + 1)
+    return False
+
+
+def _connective(c):
+    """'&&' / '||' if c is that connective, or the bitwise operator applied to two truth values (the same function), else None"""
+    if not (isinstance(c, dict) and c.get('k') == 'bin'):
+        return None
+    if c.get('op') in ('&&', '||'):
+        return c['op']
+    if c.get('op') in ('&', '|') and is_truth_value(c):
+        return '&&' if c['op'] == '&' else '||'
+    return None
+
+
 def track(G, is_src, is_sink=None):
     """{(bid, i): frozenset(TS)} before every event of G, and at (exit, 0)."""
     def refers_result(st, l):
@@ -957,6 +986,15 @@ def track(G, is_src, is_sink=None):
                 for s1 in assume_cond(st, x['c'], pol):
                     out += assign(s1, nm, arm, depth + 1)
             return out
+        if depth < 3 and is_truth_value(x) and const_val(st, r) is None:
+            # a decision stored in a local (`again = ret < 0 && errno == EINTR`): the local is 1 in the states in which the
+            # condition holds and 0 in the others
+            out = []
+            for tv in (1, 0):
+                for s1 in assume_cond(st, x, bool(tv)):
+                    s1 = kill(s1, frozenset([nm]))
+                    out.append(s1.but(K=s1.K | {(nm, tv)}))
+            return out
         res, err = st.n and refers_result(st, x), st.n and refers_errno(st, x)
         c = None if (res or err) else const_val(st, r)
         st = kill(st, frozenset([nm]))
@@ -1021,8 +1059,7 @@ def track(G, is_src, is_sink=None):
             return out
         if isinstance(x, dict) and x.get('k') in ('int', 'null'):
             return [st] if cmp_const(0 if x['k'] == 'null' else x['v'], op, n) else []
-        if isinstance(x, dict) and depth < 4 and ((x.get('k') == 'bin' and x.get('op') in ('==', '!=', '<', '<=', '>', '>=', '&&', '||'))
-                                                  or (x.get('k') == 'un' and x.get('op') == '!')):
+        if isinstance(x, dict) and depth < 4 and is_truth_value(x):
             # a truth value (0/1) compared with a constant, e.g. the index of a two-entry table
             out = []
             for tv in (1, 0):
@@ -1037,8 +1074,8 @@ def track(G, is_src, is_sink=None):
         if isinstance(c, dict) and depth < 8:
             if c.get('k') == 'un' and c.get('op') == '!':
                 return assume_cond(st, c['e'], not pol, depth + 1)
-            if c.get('k') == 'bin' and c.get('op') in ('&&', '||'):
-                if (c['op'] == '&&') == pol:
+            if _connective(c):
+                if (_connective(c) == '&&') == pol:
                     # both operands have the polarity
                     return [s2 for s1 in assume_cond(st, c['l'], pol, depth + 1) for s2 in assume_cond(s1, c['r'], pol, depth + 1)]
                 # `A && B` false: !A, or A and !B;  `A || B` true: A, or !A and B
@@ -1168,11 +1205,12 @@ class _Path:
         lb = self.label.get(i)
         if lb and lb[0] == 'not' and not _rec:
             # !x is non-zero exactly when x is zero
+            # (labels refer to older symbols only, so x's own label -- a remembered comparison / connective -- is followed too)
             if lo > 0 or hi < 0 or 0 in ne:
-                if not self.constrain(lb[1], '==', 0, True):
+                if not self.constrain(lb[1], '==', 0):
                     return False
             elif lo == hi == 0:
-                if not self.constrain(lb[1], '!=', 0, True):
+                if not self.constrain(lb[1], '!=', 0):
                     return False
         if lb and lb[0] == 'cmp' and not _rec:
             # the truth value of `a op b` was found non-zero / zero: the comparison holds / does not hold
@@ -1183,6 +1221,31 @@ class _Path:
             elif lo == hi == 0:
                 if not self.assume_cmp(lb[2], NEG[lb[1]], lb[3]):
                     return False
+        if lb and lb[0] in ('lor', 'land') and not _rec:
+            # the truth value of `A || B` / `A && B` (A, B truth values 0/1): `||` zero means both are zero, `&&` non-zero means
+            # both are non-zero; the other polarity is a disjunction: the alternative the facts leave open is assumed
+            nz = lo > 0 or hi < 0 or 0 in ne
+            z = lo == hi == 0
+            if nz or z:
+                both = (lb[0] == 'lor' and z) or (lb[0] == 'land' and nz)
+                want = ('!=' if nz else '==')
+                ops = [t for t in (lb[1], lb[2]) if t[0] == 's']
+                if both:
+                    for t in ops:
+                        if not self.constrain(t[1], want, 0):
+                            return False
+                else:
+                    # lor non-zero: one of them is non-zero; land zero: one of them is zero
+                    open_ = []
+                    for t in ops:
+                        tlo, thi, tne = self.bounds(t[1])
+                        decided_other = (tlo == thi == 0) if nz else (tlo > 0 or thi < 0 or 0 in tne)
+                        if not decided_other:
+                            open_.append(t)
+                    if not open_:
+                        return False
+                    if len(open_) == 1 and not self.constrain(open_[0][1], want, 0):
+                        return False
         if lb and lb[0] == 'and' and (lo > 0 or hi < 0 or 0 in ne) and lb[2] > 0 and lb[2] & (lb[2] - 1) == 0 and lb[1][0] == 's':
             # (x & bit) != 0: the bit is set in x
             self.bits[lb[1][1]] = self.bits.get(lb[1][1], 0) | lb[2]
@@ -1408,6 +1471,30 @@ class SymExec:
         if k == 'bin':
             a, b = self.ev(p, e['l']), self.ev(p, e['r'])
             ca, cb = p.const_of(a), p.const_of(b)
+            def _tv(v):
+                c = p.const_of(v)
+                if c is not None:
+                    return c in (0, 1)
+                if v[0] != 's':
+                    return False
+                lo, hi, _ = p.bounds(v[1])
+                return lo >= 0 and hi <= 1
+            if e['op'] in ('&&', '||') or (e['op'] in ('&', '|') and (ca is None or cb is None) and _tv(a) and _tv(b)):
+                # (`|` / `&` of two truth values is the same function as `||` / `&&`)
+                # a logical connective used as a value (`*unsupported = (errno == EINVAL || errno == ENOSYS)`): decided by the
+                # truth values of its operands as far as the facts of the path decide them, else a 0/1 symbol that remembers them
+                ta, tb = self.truth(p, a), self.truth(p, b)
+                disj = e['op'] in ('||', '|')
+                dom, neu = (1, 0) if disj else (0, 1)
+                if ta == ('c', dom) or tb == ('c', dom):
+                    return ('c', dom)
+                if ta == ('c', neu):
+                    return tb
+                if tb == ('c', neu):
+                    return ta
+                n = p.fresh(('lor' if disj else 'land', ta, tb))
+                p.facts[n[1]] = (0, 1, frozenset())
+                return n
             if e['op'] == '&' and (ca is None) != (cb is None):
                 return p.fresh(('and', b if ca is not None else a, ca if ca is not None else cb))
             if e['op'] == '|' and (ca is None) != (cb is None):
@@ -1457,6 +1544,24 @@ class SymExec:
                 return self.ev(p, e['b'])
             return p.fresh(('expr', canon(e)))
         return p.fresh(('expr', canon(e)))
+
+    def truth(self, p, v):
+        """the truth value (0/1) of value v: a constant where the facts of the path decide it, v itself if it is a 0/1 symbol,
+        else a 0/1 symbol that remembers `v != 0`"""
+        c = p.const_of(v)
+        if c is not None:
+            return ('c', int(c != 0))
+        if v[0] in ('addr', 'fn'):
+            return ('c', 1)
+        if v[0] in ('s', 'neg'):
+            lo, hi, ne = p.bounds(v[1])
+            if lo > 0 or hi < 0 or 0 in ne:
+                return ('c', 1)
+            if v[0] == 's' and lo >= 0 and hi <= 1:
+                return v
+        n = p.fresh(('cmp', '!=', v, ('c', 0)))
+        p.facts[n[1]] = (0, 1, frozenset())
+        return n
 
     # ---- conditions --------------------------------------------------------
     def _assume(self, p, cond, pol, depth=0):
